@@ -33,6 +33,9 @@ def _has_quant(t):
     return r
 
 
+_EVENT_CLAUSE = __import__('re').compile(r'\b(arg_of|result_of|n_calls|was_called)\s*\(')
+
+
 class Unsupported(Exception):
     pass
 
@@ -1079,7 +1082,16 @@ class Exec:
             finals[nm] = make_symbolic("fin_" + nm, c.params[nm], assumptions)
             post.env[nm + "__final"] = finals[nm]
         for eid, etxt, _tag in c.ensures:
-            p.assume(post.bool(etxt))
+            if _EVENT_CLAUSE.search(etxt):
+                # a clause about the calls the CALLEE makes (arg_of / result_of / n_calls of its own callees) says nothing
+                # in the caller's context - evaluated against the caller's call log it would even be an absurd assumption
+                continue
+            fact = post.bool(etxt)
+            if z3.is_false(z3.simplify(fact)):
+                # never assume an absurdity: it would make every later obligation of this path vacuously true
+                raise Unsupported("the ensures clause %r of %s is literally false at the call site (line %s)"
+                                  % (etxt, c.qualname, getattr(node, "lineno", "?")))
+            p.assume(fact)
         for nm, nv in finals.items():
             self.bi.rebind_aliases(self, p, env[nm], nv)
         if c.result_expr is not None:
